@@ -417,8 +417,17 @@ Definition apply_atleast (k f l : nat) (wb : option geometry) (fresh : Z) : cres
 
 Definition apply_exactlyk (k f l : nat) (wb : option geometry) (fresh : Z) : cres contrib :=
   vls <~ var_lists f l wb ;;
-  COk {| ct_fresh := fresh; ct_clauses := [];
-         ct_requests := map (fun vl => (Card.EQ, zn k, zs vl)) vls |}.
+  (* /repo 4d027cb: per variable list; an empty one (the factor has no level in any trial of the window) gives
+     no request: And([1, -1]) when k <> 0, nothing when k = 0 *)
+  COk {| ct_fresh := fresh;
+         ct_clauses := flat_map (fun vl => match vl with
+                                           | [] => if k =? 0 then [] else [[1%Z]; [(-1)%Z]]
+                                           | _ :: _ => []
+                                           end) vls;
+         ct_requests := flat_map (fun vl => match vl with
+                                            | [] => []
+                                            | _ :: _ => [(Card.EQ, zn k, zs vl)]
+                                            end) vls |}.
 
 Fixpoint tail_impls (l : list nat) : list fm :=
   match l with
